@@ -844,6 +844,20 @@ impl<'a> TypeEncoder<'a> {
 
         let ty = kind.ty();
         let index = self.ty(state, ty, Some(name));
+
+        // An exported instance of a named interface is available for aliasing
+        // by later items that use its types (unless the interface is imported)
+        if let ItemKind::Instance(id) = kind {
+            if let Some(iid) = &self.0[id].id {
+                let instance_index = state.current.encodable.instance_count();
+                state
+                    .current
+                    .instances
+                    .entry(iid.clone())
+                    .or_insert(instance_index);
+            }
+        }
+
         let index = Self::export_type(
             state,
             name,
